@@ -23,7 +23,7 @@ for s in seeds:
     if conf['confirmed']:
         rc, o = sh(f'git -C /repo apply {d}/patch.diff')
         try:
-            for c in ids:
+            for c in ([own] if os.environ.get('MATRIX_OWN_ONLY') else ids):
                 rc, o = sh(('' if c == own else 'VERIF_NO_ESCALATE=1 ') + f'./check {c}', cwd=V)
                 vl = [l for l in o.splitlines() if l.startswith('VIOLATION')]
                 concrete = [l for l in vl if 'no-failing-input-found' not in l]
